@@ -431,6 +431,7 @@ func main() {
 		ops := make([]string, 0, len(beh))
 		for _, st := range beh {
 			ops = append(ops, opString(st))
+			sum["op_"+st.Act()]++
 		}
 		sum["replays"]++
 		// (b) everything in one transaction
